@@ -894,7 +894,9 @@ func (p *H265Payloader) Payload(mtu uint16, payload []byte) [][]byte { //nolint:
 				payloads = append(payloads, buf)
 			} else {
 				// write the nalu directly to the payload
-				payloads = append(payloads, nalu)
+				out := make([]byte, len(nalu))
+				copy(out, nalu)
+				payloads = append(payloads, out)
 			}
 		} else {
 			// construct an aggregation packet
